@@ -2,6 +2,7 @@ import SkgVerif.Lemmas.ModelsReal
 import SkgVerif.Gen.ModelsExec
 import SkgVerif.Model.SumModels
 import SkgVerif.Lemmas.SumModels
+import SkgVerif.Props.Transcribed.C03
 /-!
 # C03 — theoretical models are valid bounded, monotone variogram functions
 
